@@ -254,8 +254,89 @@ def rank2(forms: list[tuple[int, int]]) -> int:
     return 1
 
 
+def _nnf_leaves(e: ast.AST, neg: bool = False):
+    """Leaves of the negation normal form of a test, as (leaf, negated?) pairs."""
+    if isinstance(e, ast.UnaryOp) and isinstance(e.op, ast.Not):
+        yield from _nnf_leaves(e.operand, not neg)
+    elif isinstance(e, ast.BoolOp):
+        for v in e.values:
+            yield from _nnf_leaves(v, neg)
+    else:
+        yield e, neg
+
+
+def _polarity(ctx):
+    """RET: the only way to answer False is a detected mismatch, and no mismatch means True."""
+    p = ctx.p
+    fi = p.func(FN)
+    fn = fi.node
+    flags = [a for a in fi.params if a.startswith("ignore_")]
+    rets = [r for r in walk_local(fn) if isinstance(r, ast.Return)]
+    last = fn.body[-1]
+    ctx.check(isinstance(last, ast.Return) and isinstance(last.value, ast.Constant) and last.value.value is True, "RET",
+              f"{FN}: falls through to `return True` when no comparison failed", function=FN,
+              construct="equals does not answer True when every comparison passed", message=short(last, 60), file=fi.file, node=last)
+    others = [r for r in rets if r is not last]
+    bad = [r for r in others if not (isinstance(r.value, ast.Constant) and r.value.value is False)]
+    ctx.check(not bad, "RET", f"{FN}: the {len(others)} early returns all answer False", function=FN,
+              construct="an early return of equals answers something other than False",
+              message=f"{[f'line {r.lineno}: {short(r, 40)}' for r in bad]}: a detected difference must make the sequences unequal", file=fi.file,
+              node=bad[0] if bad else fn)
+    ctx.floor("early returns of equals", len(others), 6)
+    for r in others:
+        g = getattr(r, "_parent", None)
+        if not isinstance(g, ast.If) or r not in g.body:
+            ctx.check(False, "RET", f"{FN}: early return at line {r.lineno} is guarded by a mismatch test", function=FN,
+                      construct="unguarded early return in equals", message=short(r), file=fi.file, node=r)
+            continue
+        wrong = []
+        for leaf, neg in _nnf_leaves(g.test):
+            if isinstance(leaf, ast.Compare) and len(leaf.ops) == 1 and isinstance(leaf.ops[0], (ast.Eq, ast.NotEq)):
+                differs = isinstance(leaf.ops[0], ast.NotEq) != neg
+                if not differs:
+                    wrong.append(f"`{short(leaf, 50)}`{' (negated)' if neg else ''} holds when the two values are EQUAL")
+            elif isinstance(leaf, ast.Call) and isinstance(leaf.func, ast.Name) and leaf.func.id == "isinstance":
+                if not neg:
+                    wrong.append(f"`{short(leaf, 50)}` rejects an operand of the right type")
+            elif isinstance(leaf, ast.Name) and leaf.id in flags:
+                if not neg:
+                    wrong.append(f"flag `{leaf.id}` set makes the comparison count")
+            else:
+                wrong.append(f"unrecognised leaf `{short(leaf, 50)}`")
+        ctx.check(not wrong, "RET", f"{FN}: `return False` under `{short(g.test, 70)}` fires on a difference", function=FN,
+                  construct=f"a `return False` of equals is guarded by a test that holds for equal values",
+                  message="; ".join(wrong), file=fi.file, node=g)
+    # defaults: nothing is ignored unless asked for
+    for q in (FN, "Sequence.equals"):
+        f2 = p.func(q)
+        ps = [a.arg for a in f2.node.args.args]
+        dfl = dict(zip(ps[len(ps) - len(f2.node.args.defaults):], f2.node.args.defaults))
+        for fl in [a for a in ps if a.startswith("ignore_")]:
+            d = dfl.get(fl)
+            ctx.check(isinstance(d, ast.Constant) and d.value is False, "RET", f"{q}: `{fl}` is off by default", function=q,
+                      construct=f"ignore flag is on by default", message=f"`{fl}` defaults to {short(d) if d is not None else 'nothing'}: a plain equals()/== would overlook that attribute",
+                      file=f2.file, node=f2.node)
+    # the compared kinds and the two sides
+    lists = [s for s in fn.body if isinstance(s, ast.Assign) and isinstance(s.value, ast.List) and s.value.elts
+             and all(enum_member(e, "MessageType") for e in s.value.elts)]
+    kinds = {enum_member(e, "MessageType") for s in lists for e in s.value.elts}
+    ctx.check(kinds == {"NOTE_ON", "NOTE_OFF", "TIME_SIGNATURE", "KEY_SIGNATURE"}, "RET", f"{FN}: compared kinds {sorted(kinds)}", function=FN,
+              construct="the list of compared message kinds is not {NOTE_ON, NOTE_OFF, TIME_SIGNATURE, KEY_SIGNATURE}",
+              message=f"{sorted(kinds)}", file=fi.file, node=lists[0] if lists else fn)
+    calls = [s for s in fn.body if isinstance(s, ast.Assign) and isinstance(s.value, ast.Call) and call_method(s.value)[1] == "get_interleaved_message_pairings"]
+    recvs = sorted(src(call_method(s.value)[0]) for s in calls)
+    same_args = len({ast.dump(ast.Tuple(elts=list(s.value.args) + [k.value for k in s.value.keywords], ctx=ast.Load())) for s in calls}) == 1
+    ctx.check(len(calls) == 2 and recvs == sorted(["self", fi.params[1]]) and same_args, "RET",
+              f"{FN}: the two sides are read through the same call with the same arguments ({recvs})", function=FN,
+              construct="the two operands of equals are not read the same way", message=f"{[short(s, 90) for s in calls]}", file=fi.file,
+              node=calls[0] if calls else fn)
+
+
 def _extra(ctx):
+    _polarity(ctx)
     from ..engines import keykind as _kk
     _kk.check_function(ctx, "AbsoluteSequence.get_message_pairings", "KEY", expect_min=2)
+    from ..engines.pairing import check_pairings
+    ctx.floor("pairing-table cases decided", check_pairings(ctx), 14)
     from ..engines.structure import interleave_rule
     interleave_rule(ctx)
